@@ -40,6 +40,9 @@ type envCase struct {
 	Versions []int           `json:"versions"`
 	Legacy   bool            `json:"legacy"`
 	Ports    []int           `json:"ports,omitempty"` // MinPort, MaxPort of the client config (default 11111, 22222)
+	// CmdEnv: the caller's Cmd.Env already carries the host's values of the variables every client sets (what
+	// cmd.Env = append(os.Environ(), ...) gives in a host that is itself a plugin), plus a variable of its own
+	CmdEnv bool `json:"cmd_env,omitempty"`
 }
 
 var envNames = map[string]string{
@@ -144,6 +147,14 @@ func runEnvCase(c envCase, tmp string) map[string]interface{} {
 	} else {
 		dump := filepath.Join(tmp, c.Name+".env")
 		cmd := exec.Command("/bin/sh", "-c", "env -0 > "+dump+".tmp; mv "+dump+".tmp "+dump+"; exec sleep 30")
+		if c.CmdEnv {
+			for _, v := range []string{"COOKIE", "MIN", "MAX", "VERS"} {
+				if c.Host[v] {
+					cmd.Env = append(cmd.Env, envNames[v]+"="+hostVals[v])
+				}
+			}
+			cmd.Env = append(cmd.Env, "VERIF_APPVAR=1")
+		}
 		cfg.Cmd = cmd
 		cl := plugin.NewClient(cfg)
 		cl.Start()
